@@ -430,6 +430,30 @@ def rule_insert_retrievable(db: ProgramDB) -> List[Instance]:
                         f"{shape}: index written={w_idx}, flat store written={w_flat}; retrieve(from_index=True) reads only the "
                         f"index, while the coverage check treats an empty assignment as covering every lookup: the output is "
                         f"claimed covered and never returned"))
+    # a key is filed under the wildcard exactly when the binding does not bind it - a bound value that is falsy (0, '', None, False)
+    # is a value like any other
+    ins_m = db.cls("IndexedCache").methods.get("insert")
+    if ins_m is not None:
+        ap_ = ins_m.positional_params[1] if len(ins_m.positional_params) > 1 else "assignment"
+        n_w = 0
+        for x in own_nodes(ins_m.node):
+            if isinstance(x, ast.BoolOp) and isinstance(x.op, ast.Or) and any(unparse(v) in ("All", "ALL") for v in x.values) and \
+                    any(ap_ in unparse(v) for v in x.values):
+                n_w += 1
+                out.append(inst("INSERT-RETRIEVABLE", VIOLATION, ins_m, "IndexedCache.insert[wildcard exactly for unbound keys]",
+                                f"`{unparse(x)}` files a key under the wildcard when its value is FALSY, not when it is unbound: a binding with 0 / '' / None / False "
+                                f"for a key is returned for lookups with any other value, lookups for it miss, and two bindings that differ only there "
+                                f"overwrite each other", line=x.lineno))
+            elif isinstance(x, ast.Call) and call_attr(x) == "get" and unparse(x.func.value) == ap_ and len(x.args) == 2 and unparse(x.args[1]) in ("All", "ALL"):
+                n_w += 1
+                out.append(inst("INSERT-RETRIEVABLE", HOLDS, ins_m, "IndexedCache.insert[wildcard exactly for unbound keys]",
+                                f"`{unparse(x)}`: the wildcard stands in only when the key is absent", line=x.lineno))
+            elif isinstance(x, ast.IfExp) and unparse(x.orelse) in ("All", "ALL") and isinstance(x.test, ast.Compare) and isinstance(x.test.ops[0], ast.In):
+                n_w += 1
+                out.append(inst("INSERT-RETRIEVABLE", HOLDS, ins_m, "IndexedCache.insert[wildcard exactly for unbound keys]",
+                                f"`{unparse(x)[:60]}`: the wildcard stands in only when the key is absent", line=x.lineno))
+        if n_w == 0:
+            raise AnalysisError("IndexedCache.insert: the place where an unbound key is filed under the wildcard was not found")
     return out
 
 
@@ -607,6 +631,34 @@ def rule_retrieve_all_branches(db: ProgramDB) -> List[Instance]:
         if p2 is not None:
             bad = (cn, p1 + p2)
             break
+    # (c) when the lookup binds the key to a value nothing is stored under, the entries that leave the key open still agree: on the
+    # branch 'looked-up value absent' every path to an exit looks at the wildcard child
+    miss_tests = []
+    for nd in cfg.nodes:
+        t = getattr(nd.stmt, "test", None) if nd.kind == "test" else None
+        neg = False
+        while isinstance(t, ast.UnaryOp) and isinstance(t.op, ast.Not):
+            t, neg = t.operand, not neg
+        if isinstance(t, ast.Compare) and len(t.ops) == 1 and isinstance(t.ops[0], (ast.In, ast.NotIn)) and "cache" in unparse(t.comparators[0]) \
+                and (unparse(t.left).startswith(ap + "[") or unparse(t.left) in looked_up):
+            absent_label = "T" if isinstance(t.ops[0], ast.NotIn) != neg else "F"
+            miss_tests.append((nd, absent_label))
+    for nd, absent_label in miss_tests:
+        bad_c = None
+        for e in cfg.succ[nd.id]:
+            if e.kind != "n" or e.label != absent_label:
+                continue
+            first = cfg.nodes[e.dst]
+            if is_wild(first):
+                continue
+            pc = cfg.find_path(first.id, lambda x: x.id in exits, kinds=("n",), blocked=is_wild)
+            if pc is not None or first.id in exits:
+                bad_c = [e] + (pc or [])
+        out.append(inst("RETRIEVE-ALL-BRANCHES", VIOLATION if bad_c else HOLDS, m, "IndexedCache.retrieve[bound key absent: the wildcard child is followed]",
+                        "when nothing is stored under the looked-up value, retrieve() returns without looking at the wildcard child of that level (" +
+                        " ".join(cfg.describe_path(bad_c)[:3]) + "): a row stored under a binding that leaves this key open (or_(d.trusted, p.device == d) is true "
+                        "for a trusted d without binding p) is reported as covered and then not returned - rows are lost with caching on" if bad_c else
+                        "when nothing is stored under the looked-up value, the wildcard child of the level is looked at", line=nd.lineno))
     out.append(inst("RETRIEVE-ALL-BRANCHES", VIOLATION if bad else HOLDS, m, "IndexedCache.retrieve[bound key: wildcard only if concrete missing]",
                     "when the lookup binds a key, the wildcard branch of that level is followed only if no entry binds "
                     f"the key to the looked-up value: entries that leave the key open are not returned next to it (`{bad[0].src()[:50]}` is reached "
@@ -691,6 +743,39 @@ def rule_replay_dedup(db: ProgramDB) -> List[Instance]:
                 helpers[m.name] = (m, loop, dedup_if, flag)
     if not helpers:
         raise AnalysisError("no cache-replay helper (loop over <cache>.retrieve(...) that yields rows) found on BinaryOperator")
+    # a replayed row is dropped by the duplicate guard only when it IS a duplicate: the guard implies the duplicate test, whatever
+    # the row's truth and the helper's flags
+    import itertools as _it
+    from ..boolexpr import eval_bool as _eval_bool
+    for hname, (hm, hloop, dedup_if, flag) in sorted(helpers.items()):
+        if dedup_if is None:
+            continue
+        pnames = sorted({x.id for x in ast.walk(dedup_if.test) if isinstance(x, ast.Name) and x.id in hm.params})
+
+        def atom_h(e, flag=flag, hm=hm):
+            if isinstance(e, ast.Name) and e.id == flag:
+                return "F"
+            if isinstance(e, ast.Call) and call_attr(e) == "_is_duplicate_output_":
+                return "D"
+            if isinstance(e, ast.Name) and e.id in hm.params:
+                return "p:" + e.id
+            return None
+        bad_env = None
+        try:
+            for vals in _it.product([False, True], repeat=1 + len(pnames)):
+                env = {"F": vals[0], "D": False}
+                env.update({"p:" + p: v for p, v in zip(pnames, vals[1:])})
+                if bool(_eval_bool(dedup_if.test, atom_h, env)):
+                    bad_env = env
+                    break
+        except AnalysisError as e:
+            out.append(inst("REPLAY-DEDUP", UNDECIDED, hm, f"{hm.short}[a row that is no duplicate is replayed]", f"guard not decidable: {e}", line=dedup_if.lineno))
+            continue
+        out.append(inst("REPLAY-DEDUP", VIOLATION if bad_env else HOLDS, hm, f"{hm.short}[a row that is no duplicate is replayed]",
+                        f"`{unparse(dedup_if.test)}` drops a replayed row that is NOT a duplicate (row false: {bad_env['F']}" +
+                        "".join(f", {k[2:]}={v}" for k, v in bad_env.items() if k.startswith("p:")) + "): every false row stored in a result cache is lost on "
+                        "replay, and an enclosing or_ that needs the false row to try its other side loses satisfying assignments on the second evaluation"
+                        if bad_env else "the duplicate guard of the replay drops a row only when the duplicate test says so", line=dedup_if.lineno))
 
     def replay_suppresses_true(hname: str, call: ast.Call) -> bool:
         m, loop, dedup_if, flag = helpers[hname]
@@ -1368,4 +1453,47 @@ def rule_keys_derived_fresh(db: ProgramDB) -> List[Instance]:
     if not bad:
         out.append(inst("KEYS-DERIVED-FRESH", HOLDS, ic, "IndexedCache[nothing derived from the key list is kept outside its setter]",
                         "no field holds a value computed from the key list without the setter recomputing it (built-in positive example recognised)"))
+    return out
+
+
+
+# ---------------------------------------------------------------------------------- STORE-NO-ALIAS
+def rule_store_no_alias(db: ProgramDB) -> List[Instance]:
+    """What the index remembers as covered is the binding as it was when it was inserted.  The operators build their rows in
+    dicts they go on using (a row is extended, merged into the next one, handed up): the coverage record must be a copy, not
+    the caller's dict."""
+    out = []
+    ic = db.cls("IndexedCache")
+    m = ic.methods.get("insert")
+    if m is None:
+        raise AnalysisError("IndexedCache.insert not found")
+    adds = [c for c in own_calls(m) if call_attr(c) == "add" and isinstance(c.func.value, ast.Attribute) and c.func.value.attr == "seen_set" and c.args]
+    if not adds:
+        raise AnalysisError("IndexedCache.insert: recording of coverage (seen_set.add) not found")
+    defs = local_defs(m)
+    for c in adds:
+        a = c.args[0]
+        fresh = isinstance(a, (ast.Dict, ast.DictComp)) or (isinstance(a, ast.Call) and dotted(a.func) in ("dict", "copy", "copy.copy", "deepcopy"))
+        if isinstance(a, ast.Name):
+            ds = [d for d in defs.get(a.id, []) if isinstance(d, ast.AST)]
+            fresh = bool(ds) and a.id not in m.params and all(isinstance(d, (ast.Dict, ast.DictComp)) or (isinstance(d, ast.Call) and dotted(d.func) in ("dict", "copy", "copy.copy", "deepcopy"))
+                                                                for d in ds)
+        out.append(inst("STORE-NO-ALIAS", HOLDS if fresh else VIOLATION, m, f"IndexedCache.insert[{unparse(c)[:50]}]",
+                        "the coverage record is a copy of the inserted binding" if fresh else
+                        f"`{unparse(c)}` keeps the caller's dict as the coverage record: when the caller goes on using that dict (extends the row, pops a key, "
+                        f"clears it) bindings that were inserted stop being covered and bindings that never were start being covered, while retrieve() "
+                        f"still returns what was stored", line=c.lineno))
+    return out
+
+
+def rule_retrieve_miss_wildcard(db: ProgramDB) -> List[Instance]:
+    """The clause of RETRIEVE-ALL-BRANCHES that the operators' caches depend on whatever the walk prefers elsewhere: a lookup that
+    binds a key to a value nothing is stored under still gets the entries that leave the key open."""
+    out = []
+    for i in rule_retrieve_all_branches(db):
+        if "bound key absent" in i.construct:
+            i.rule = "RETRIEVE-MISS-WILDCARD"
+            out.append(i)
+    if not out:
+        raise AnalysisError("IndexedCache.retrieve: no test for 'the looked-up value is not stored' found")
     return out
